@@ -638,7 +638,6 @@ func ruleNoErrorAsReply(w *core.World, r *core.Report, debug bool) {
 	}
 }
 
-
 // derivesFromValue: v is e, or is computed from e through conversions,
 // interface boxing, phis and call arguments (formatting an error into a
 // string is a call), up to the given depth.
